@@ -45,7 +45,21 @@ func ScanPngHeader(r io.ReadSeeker) (header meta.ExifHeader, err error) {
 		case "eXIf":
 			offset, _ := r.Seek(0, io.SeekCurrent)
 
-			return meta.NewExifHeader(utils.BigEndian, 8, uint32(offset), length, imagetype.ImagePNG), nil
+			// The chunk data is a TIFF header followed by the IFDs: the byte order
+			// and the first IFD offset are those stored in that header.
+			if _, err = io.ReadFull(r, buf); err != nil {
+				return header, meta.ErrNoExif
+			}
+			byteOrder := utils.BinaryOrder(buf)
+			if byteOrder == utils.UnknownEndian {
+				return header, meta.ErrNoExif
+			}
+			firstIfdOffset := byteOrder.Uint32(buf[4:8])
+			if _, err = r.Seek(offset, io.SeekStart); err != nil {
+				return header, err
+			}
+
+			return meta.NewExifHeader(byteOrder, firstIfdOffset, uint32(offset), length, imagetype.ImagePNG), nil
 
 		default:
 			// Discard the chunk length + CRC.
